@@ -1,4 +1,4 @@
-// seqmc explorer shared by the sequential-history harnesses C10_*.cpp, C08_histories.cpp and
+// seqmc explorer shared by the sequential-history harnesses C10_maps.cpp, C08_histories.cpp and
 // C19_histories.cpp (DESIGN.md 2.2): every operation history up to a depth, the state IS the
 // history - each maximal history is replayed on fresh real objects in lock step with a reference
 // model, inside forked shards (vr::run_sharded) so a sanitizer abort is attributed to the history.
@@ -7,8 +7,8 @@
 //   typedef Model;                        copyable reference-model state, used to enumerate
 //   Model initial() const;
 //   int nops() const;                     alphabet, ordered simplest first
-//   std::string opname(int op) const;     token used in replay strings, no ',' ':' or blanks
-//   std::string opclass(int op) const;    operation kind without concrete arguments (signatures)
+//   const std::string &opname(int) const; token used in replay strings, no ',' ':' or blanks
+//   const std::string &opclass(int) const;operation kind without concrete arguments (signatures)
 //   bool enabled(const Model&, int op) const;
 //   void advance(Model&, int op) const;   model-only transition
 //   struct Run { Run(const Sys&, sq::Ctx&); void step(int op, bool fresh); void finish();
@@ -79,30 +79,34 @@ inline Spill &spill()
 struct Ctx
 {
   const char *sysname = "";
-  std::string tag;
-  const std::vector<std::string> *toks = nullptr;  // tokens of the history being run
-  int cur = 0;                                     // step being executed; == toks->size() during teardown
+  const std::string *full = nullptr;     // "tag:op,op,...": the history being run
+  const std::vector<int> *off = nullptr; // off[j] = length of `full` up to and including step j
+  size_t taglen = 0;                     // length of "tag:"
+  int cur = 0;                           // step being executed; == number of steps during teardown
   bool verbose = false;
   bool failed = false;    // a violation was reported: abandon the history
   bool diverged = false;  // the implementation took a permitted alternative the enumeration does not follow
-  std::string history(int upto) const
+  int nsteps() const { return (int)off->size(); }
+  std::string tok(int j) const
   {
-    std::string s;
-    int n = (int)toks->size();
-    for (int i = 0; i < n && i <= upto; i++)
-      s += (i ? "," : "") + (*toks)[i];
-    return s;
+    size_t b = j == 0 ? taglen : (size_t)(*off)[j - 1] + 1;
+    return full->substr(b, (*off)[j] - b);
   }
   std::string replay() const
   {
-    return tag + ":" + history(cur);
+    int n = nsteps();
+    if (n == 0)
+      return full->substr(0, taglen);
+    return full->substr(0, (*off)[cur < n ? cur : n - 1]);
   }
   std::string where() const
   {
-    int n = (int)toks->size();
+    int n = nsteps();
+    std::string r = replay();
+    std::string h = r.substr(taglen);
     if (cur >= n)
-      return "during teardown after [" + history(n) + "]";
-    return "at step " + std::to_string(cur + 1) + " '" + (*toks)[cur] + "' of [" + history(cur) + "]";
+      return "during teardown after [" + h + "]";
+    return "at step " + std::to_string(cur + 1) + " '" + tok(cur) + "' of [" + h + "]";
   }
   void viol(const std::string &cls, const std::string &detail)
   {
@@ -122,15 +126,6 @@ struct Ctx
       printf("  VIOLATED %s :: %s\n", sig.c_str(), dt.c_str());
     failed = true;
   }
-  void say(const char *fmt, ...) const
-  {
-    if (!verbose)
-      return;
-    va_list ap;
-    va_start(ap, fmt);
-    vprintf(fmt, ap);
-    va_end(ap);
-  }
 };
 
 inline void rm_rf_flat(const std::string &dir)
@@ -147,6 +142,33 @@ inline void rm_rf_flat(const std::string &dir)
   rmdir(dir.c_str());
 }
 
+inline uint64_t mix(uint64_t h, uint64_t v)
+{
+  return (h ^ v) * 1099511628211ull + 0x9e3779b97f4a7c15ull;
+}
+
+// vr::outcome takes a lock and walks a set: remember locally what was already handed over
+struct OutcomeCache
+{
+  std::vector<uint64_t> tab;
+  OutcomeCache() : tab(1 << 16, 0) {}
+  void add(uint64_t h)
+  {
+    if (h == 0)
+      h = 1;
+    uint64_t &e = tab[(h >> 7) & (tab.size() - 1)];
+    if (e == h)
+      return;
+    e = h;
+    vr::outcome(h);
+  }
+};
+inline OutcomeCache &outcomes()
+{
+  static OutcomeCache c;
+  return c;
+}
+
 template <class Sys>
 struct Explorer
 {
@@ -156,40 +178,49 @@ struct Explorer
   int nshards;
   Counters *shared = nullptr;
   std::string dir;
+  std::vector<std::string> stepsig;  // slot signature context per operation
 
-  Explorer(const Sys &s, int d, int nsh = 64, int pfx = 3) : sys(s), depth(d), P(pfx < d ? pfx : d), nshards(nsh) {}
+  Explorer(const Sys &s, int d, int nsh = 64, int pfx = 3) : sys(s), depth(d), P(pfx < d ? pfx : d), nshards(nsh)
+  {
+    for (int i = 0; i < sys.nops(); i++) {
+      std::string g = std::string(sys.sysname()) + "|" + sys.opclass(i);
+      if (g.size() > 250)
+        g.resize(250);
+      stepsig.push_back(g);
+    }
+  }
 
   // ---- one maximal history on fresh objects
   // returns the number of steps that were executed and fully checked without a finding
-  int run_history(const std::vector<int> &ops, const std::vector<std::string> &toks, int observed_prefix, bool verbose,
-      std::string *describe = nullptr)
+  int run_history(const std::vector<int> &ops, const std::string &full, const std::vector<int> &off, int observed_prefix,
+      bool verbose, std::string *describe = nullptr)
   {
     Ctx ctx;
     ctx.sysname = sys.sysname();
-    ctx.tag = sys.tag();
-    ctx.toks = &toks;
+    ctx.full = &full;
+    ctx.off = &off;
+    ctx.taglen = strlen(sys.tag()) + 1;
     ctx.verbose = verbose;
-    int n = (int)ops.size();
+    const int n = (int)ops.size();
     vr::Slot *sl = vr::my_slot();
-    std::string full;
-    std::vector<int> off(n + 1, 0);
+    size_t cut = 0;  // position of the terminator currently planted in sl->replay
     if (sl) {
-      full = ctx.tag + ":";
-      for (int i = 0; i < n; i++) {
-        full += (i ? "," : "") + toks[i];
-        off[i] = (int)full.size();
-      }
-      off[n] = (int)full.size();
+      size_t k = std::min<size_t>(full.size(), sizeof sl->replay - 1);
+      memcpy(sl->replay, full.data(), k);
+      sl->replay[k] = 0;
+      cut = k;
     }
     typename Sys::Run run(sys, ctx);
     int j = 0;
     for (; j < n; j++) {
       ctx.cur = j;
-      if (sl) {
-        snprintf(sl->sig, sizeof sl->sig, "%s|%s", sys.sysname(), sys.opclass(ops[j]).c_str());
+      if (sl) {  // the slot names the history up to and including this step
+        const std::string &g = stepsig[ops[j]];
+        memcpy(sl->sig, g.c_str(), g.size() + 1);
         size_t k = std::min<size_t>(off[j], sizeof sl->replay - 1);
-        memcpy(sl->replay, full.data(), k);
+        sl->replay[cut] = cut < full.size() ? full[cut] : 0;
         sl->replay[k] = 0;
+        cut = k;
       }
       run.step(ops[j], j >= observed_prefix);
       if (ctx.failed || ctx.diverged)
@@ -216,14 +247,15 @@ struct Explorer
     spill().path = sp;
     if (resume_after >= 0)
       spill().load();
-    std::vector<int> ops, prev;
-    std::vector<std::string> toks;
+    std::vector<int> ops, prev, off;
+    std::string full = std::string(sys.tag()) + ":";
     std::vector<typename Sys::Model> ms(depth + 1, sys.initial());
     long long idx = -1, pfx = -1;
     bool have_prev = false, stop = false;
     int prev_checked = 0;
     Counters &cn = shared[shard];
     const int nops = sys.nops();
+    vr::Slot *sl = vr::my_slot();
     std::function<void(int)> leaf = [&](int n) {
       idx++;
       if (idx <= resume_after) {  // already run (or died) in an earlier incarnation of this shard
@@ -246,19 +278,19 @@ struct Explorer
       // histories (= states) first reached by this one: its prefixes longer than the shared part
       // (prefixes of length <= P are counted once by the parent)
       int known = common > P ? common : P;
-      vr::begin_case(idx, std::string(sys.sysname()) + "|history", "");
+      if (sl)
+        sl->index = idx;  // same as vr::begin_case; signature and replay are kept current per step
+      else
+        vr::begin_case(idx, "", "");
       cn.states += n > known ? n - known : 0;
       cn.transitions += n;
       cn.traces += 1;
       std::string desc;
-      int done = run_history(ops, toks, p, false, idx < 4 ? &desc : nullptr);
-      if (idx < 4 && !desc.empty())
-        vr::sample(std::string(sys.tag()) + ": [" + [&]() {
-          std::string s;
-          for (int i = 0; i < n; i++)
-            s += (i ? "," : "") + toks[i];
-          return s;
-        }() + "] -> " + desc, std::string(sys.tag()) + toks[0] + std::to_string(idx));
+      // two written-out histories per alphabet: one early, one from the middle of a shard
+      const bool smp = (shard == 1 && idx == 0) || (shard == nshards / 2 && idx == 997);
+      int done = run_history(ops, full, off, p, false, smp ? &desc : nullptr);
+      if (smp && !desc.empty())
+        vr::sample("[" + full + "] -> " + desc);
       prev = ops;
       prev_checked = done;
       have_prev = true;
@@ -283,12 +315,17 @@ struct Explorer
         ms[lvl + 1] = ms[lvl];
         sys.advance(ms[lvl + 1], op);
         ops.push_back(op);
-        toks.push_back(sys.opname(op));
+        size_t old = full.size();
+        if (lvl > 0)
+          full += ',';
+        full += sys.opname(op);
+        off.push_back((int)full.size());
         rec(lvl + 1);
+        off.pop_back();
+        full.resize(old);
         ops.pop_back();
-        toks.pop_back();
       }
-      if (!any && lvl >= P)
+      if (!any && lvl >= P && lvl > 0)
         leaf(lvl);  // maximal although shorter than the depth
     };
     rec(0);
@@ -338,7 +375,7 @@ struct Explorer
     vr::stat("traces", tc);
     vr::stat(std::string("histories_") + sys.tag(), tc);
     vr::stat("max_depth", depth);
-    char b[256];
+    char b[320];
     snprintf(b, sizeof b, "%s: depth %d, alphabet %d, %lld histories (incl. prefixes) reached, %lld maximal histories replayed, %lld operations, %.1fs",
         sys.tag(), depth, sys.nops(), st, tc, tr, vr::now_s() - t0);
     vr::note(b);
@@ -347,8 +384,8 @@ struct Explorer
   // ---- replay "op,op,op" (after the tag) with a printed trace
   int replay(const std::string &hist)
   {
-    std::vector<int> ops;
-    std::vector<std::string> toks;
+    std::vector<int> ops, off;
+    std::string full = std::string(sys.tag()) + ":";
     typename Sys::Model m = sys.initial();
     std::stringstream ss(hist);
     std::string tok;
@@ -368,22 +405,20 @@ struct Explorer
         return 2;
       }
       sys.advance(m, op);
+      if (!ops.empty())
+        full += ',';
+      full += tok;
+      off.push_back((int)full.size());
       ops.push_back(op);
-      toks.push_back(tok);
     }
     printf("replaying %s history of %d operations on fresh objects (%s)\n", sys.tag(), (int)ops.size(), sys.sysname());
     std::string desc;
-    run_history(ops, toks, 0, true, &desc);
+    run_history(ops, full, off, 0, true, &desc);
     if (!desc.empty())
       printf("final state: %s\n", desc.c_str());
     vr::flush();
     return vr::S().viols.empty() ? 0 : 1;
   }
 };
-
-inline uint64_t mix(uint64_t h, uint64_t v)
-{
-  return (h ^ v) * 1099511628211ull + 0x9e3779b97f4a7c15ull;
-}
 
 }  // namespace sq
